@@ -185,3 +185,59 @@ def posterior_record(kind, model, data, aff, *, wca, sam=None, eps=0.0, exc='', 
                has_sam=sam is not None, sam=flatb(sam) if sam is not None else dict(shape=[], data=[]),
                eps=enc.flt(eps), **weight_record_fields(kind, model, wca))
     return rec
+
+
+# ---------------------------------------------------------------------------
+# canonical (phase-invariant) fields of a model for the relations of Model.tla
+def _field(name, a, cplx=None):
+    a = np.asarray(a)
+    if cplx is None:
+        cplx = np.iscomplexobj(a)
+    return dict(name=name, t=flatz(a) if cplx else flat(a.real if np.iscomplexobj(a) else a), cplx=bool(cplx))
+
+
+def _cov_from_eig(U, lam):
+    return np.einsum('...ae,...e,...be->...ab', U, lam, np.conj(U))
+
+
+def dist_fields(obj):
+    """canonical fields of a single distribution object"""
+    n = type(obj).__name__
+    if n == 'ComplexAngularCentralGaussian':
+        return [_field('cacg_covariance', _cov_from_eig(obj.covariance_eigenvectors, obj.covariance_eigenvalues), True),
+                _field('cacg_eigenvalues', np.sort(obj.covariance_eigenvalues, axis=-1))]
+    if n == 'ComplexWatson':
+        return [_field('watson_mode_outer', np.einsum('...a,...b->...ab', obj.mode, np.conj(obj.mode)), True),
+                _field('watson_concentration', obj.concentration)]
+    if n == 'ComplexBingham':
+        return [_field('bingham_covariance', _cov_from_eig(obj.covariance_eigenvectors, obj.covariance_eigenvalues), True),
+                _field('bingham_eigenvalues', np.sort(obj.covariance_eigenvalues, axis=-1))]
+    if n == 'Gaussian':
+        return [_field('gaussian_mean', obj.mean), _field('gaussian_covariance_full', obj.covariance)]
+    if n == 'DiagonalGaussian':
+        return [_field('gaussian_mean', obj.mean), _field('gaussian_covariance_diagonal', obj.covariance)]
+    if n == 'SphericalGaussian':
+        return [_field('gaussian_mean', obj.mean), _field('gaussian_covariance_spherical', obj.covariance)]
+    if n == 'VonMisesFisher':
+        return [_field('vmf_mean', obj.mean), _field('vmf_concentration', obj.concentration)]
+    if n == 'ComplexCircularSymmetricGaussian':
+        return [_field('gaussian_covariance_full', obj.covariance, True)]
+    raise ValueError(n)
+
+
+def model_fields(kind, model, posterior=None, with_weight=True):
+    out = []
+    if with_weight:
+        out.append(_field('weight', np.asarray(model.weight, dtype=float)))
+    for attr in ('cacg', 'complex_watson', 'complex_bingham', 'gaussian', 'vmf'):
+        if attr in getattr(model, '__dataclass_fields__', {}):
+            out.extend(dist_fields(getattr(model, attr)))
+    if posterior is not None:
+        out.append(_field('posterior', posterior))
+    return out
+
+
+def twin_record(rel, A, B, *, kind, wca=(-1,), pi=None, lead=None, slack=256, exc='', exc_clause='raises', fp='', key=''):
+    wl = [wca] if isinstance(wca, int) else [int(a) for a in wca]
+    return dict(kind='twin', rel=rel, A=A or [], B=B or [], pi=pi or [], lead=lead or [], slack=int(slack),
+                integration=kind in INTEGRATION, wca=wl, exc=exc, exc_clause=exc_clause, fp=fp, key=key)
